@@ -48,19 +48,21 @@ def main():
         for c in checks:
             t = time.time()
             rc = sh([os.path.join(VERIF, 'check'), c, '--tier', os.environ.get('SEED_TIER', 'quick')],
-                    env=dict(os.environ, VERIF_REPO=wt), cwd=VERIF)
+                    env=dict(os.environ, VERIF_REPO=wt, VERIF_REPLAY_BASE=os.path.join(wt, '.verif-replay'),
+                             VERIF_EVIDENCE_DIR=os.path.join(wt, '.verif-evidence')), cwd=VERIF)
             viol = [l for l in rc.stdout.splitlines() if l.startswith('VIOLATION')]
             detail = [l for l in rc.stdout.splitlines() if l.startswith('  ')][:3]
             out['checks'][c] = dict(exit=rc.returncode, violations=len(viol), first=detail, wall=round(time.time() - t, 1),
                                     tail=rc.stdout.strip().splitlines()[-1:] if rc.returncode not in (0, 1) else None)
-            # evidence files written by runs against a changed tree are not evidence: restore
-            sh(['git', '-C', VERIF, 'checkout', '--', 'evidence/%s.json' % c])
         dst = os.path.join(VERIF, 'seeded', name)
         os.makedirs(dst, exist_ok=True)
-        shutil.copy(patch_p, os.path.join(dst, 'patch.diff'))
-        shutil.copy(demo_p, os.path.join(dst, 'demo' + os.path.splitext(demo_p)[1]))
+        for src, name in ((patch_p, 'patch.diff'), (demo_p, 'demo' + os.path.splitext(demo_p)[1])):
+            if os.path.realpath(src) != os.path.realpath(os.path.join(dst, name)):
+                shutil.copy(src, os.path.join(dst, name))
         meta = {}
         mp = os.path.join(seed_dir, patch.replace('patch', 'meta').replace('.diff', '.json'))
+        if os.path.realpath(seed_dir) == os.path.realpath(dst):
+            mp = os.path.join(dst, 'meta.json')
         if os.path.exists(mp):
             try:
                 meta = json.load(open(mp))
@@ -73,7 +75,6 @@ def main():
     finally:
         sh(['git', '-C', '/repo', 'worktree', 'remove', '--force', wt])
         shutil.rmtree(wt, ignore_errors=True)
-        shutil.rmtree(os.path.join(VERIF, 'replay'), ignore_errors=True)
 
 
 if __name__ == '__main__':
